@@ -54,8 +54,80 @@ pub open spec fn one_segment(src: Seq<u8>, dst: Seq<u8>, i: int, o: int, s0: Dec
 }
 /// states in which the decoder may rest between calls
 pub open spec fn dechunker_wf(d: Dechunker) -> bool { !(d is Trailer) && (d is Chunk ==> d->Chunk_0 > 0) }
+
+// ---------------------------------------------------------------- the decoder as a spec-level interpreter (C07 composition)
+/// outcome of one state handler on the window `win` with `room` bytes of output space
+pub enum StepOut { Stop, Error, Go { next: Dechunker, consumed: int, copied: Seq<u8>, more: bool } }
+pub open spec fn spec_step(s: Dechunker, win: Seq<u8>, room: int) -> StepOut {
+    match s {
+        Dechunker::Size => match spec_find_crlf(win) {
+            None => StepOut::Stop,
+            Some(i) => if i > 20 { StepOut::Error } else { match size_line(win.subrange(0, i)) {
+                SizeLine::NotAscii => StepOut::Error,
+                SizeLine::NotANumber => StepOut::Error,
+                SizeLine::Last => StepOut::Go { next: Dechunker::Ending, consumed: i + 2, copied: Seq::<u8>::empty(), more: true },
+                SizeLine::Data(n) => StepOut::Go { next: Dechunker::Chunk(n), consumed: i + 2, copied: Seq::<u8>::empty(), more: true },
+            } },
+        },
+        Dechunker::Chunk(l) => {
+            let n = min3(win.len() as int, room, l as int);
+            StepOut::Go { next: if n == l { Dechunker::CrLf } else { Dechunker::Chunk((l - n) as usize) }, consumed: n, copied: win.subrange(0, n), more: n > 0 }
+        },
+        Dechunker::CrLf => match spec_find_crlf(win) {
+            None => StepOut::Stop,
+            Some(i) => if i > 0 { StepOut::Error } else { StepOut::Go { next: Dechunker::Size, consumed: 2, copied: Seq::<u8>::empty(), more: false } },
+        },
+        Dechunker::Ending => match spec_find_crlf(win) {
+            None => StepOut::Stop,
+            Some(i) => if i == 0 { StepOut::Go { next: Dechunker::Ended, consumed: 2, copied: Seq::<u8>::empty(), more: true } }
+                       else { StepOut::Go { next: Dechunker::Trailer, consumed: 0, copied: Seq::<u8>::empty(), more: true } },
+        },
+        Dechunker::Trailer => match spec_find_crlf(win) {
+            None => StepOut::Stop,
+            Some(i) => StepOut::Go { next: Dechunker::Ending, consumed: i + 2, copied: Seq::<u8>::empty(), more: true },
+        },
+        Dechunker::Ended => StepOut::Stop,
+    }
+}
+/// result of one `parse_input`: final state, bytes consumed, bytes produced
+pub struct ParseOut { pub state: Dechunker, pub i: int, pub out: Seq<u8> }
+/// `parse_input` as a function of (state, window, room): handlers are run until one reports "no more"; None = error
+#[verifier::opaque]
+pub open spec fn spec_parse(s: Dechunker, win: Seq<u8>, room: int) -> Option<ParseOut>
+    decreases win.len(), rank(s)
+{
+    match spec_step(s, win, room) {
+        StepOut::Stop => Some(ParseOut { state: s, i: 0, out: Seq::<u8>::empty() }),
+        StepOut::Error => None,
+        StepOut::Go { next, consumed, copied, more } =>
+            if !more { Some(ParseOut { state: next, i: consumed, out: copied }) }
+            else if consumed < 0 || consumed > win.len() || copied.len() > room || (consumed == 0 && rank(next) >= rank(s)) { None }
+            else { match spec_parse(next, win.subrange(consumed, win.len() as int), room - copied.len()) {
+                None => None,
+                Some(r) => Some(ParseOut { state: r.state, i: consumed + r.i, out: copied + r.out }),
+            } },
+    }
+}
 ''')
 
+PROOF('lemma_parse_unfold', ['C07'], '''
+/// one unfolding of the interpreter (spec_parse is opaque to keep the solver's work small)
+pub proof fn lemma_parse_unfold(s: Dechunker, win: Seq<u8>, room: int)
+    ensures spec_parse(s, win, room) == (match spec_step(s, win, room) {
+        StepOut::Stop => Some(ParseOut { state: s, i: 0, out: Seq::<u8>::empty() }),
+        StepOut::Error => None,
+        StepOut::Go { next, consumed, copied, more } =>
+            if !more { Some(ParseOut { state: next, i: consumed, out: copied }) }
+            else if consumed < 0 || consumed > win.len() || copied.len() > room || (consumed == 0 && rank(next) >= rank(s)) { None }
+            else { match spec_parse(next, win.subrange(consumed, win.len() as int), room - copied.len()) {
+                None => None,
+                Some(r) => Some(ParseOut { state: r.state, i: consumed + r.i, out: copied + r.out }),
+            } },
+    })
+{
+    reveal(spec_parse);
+}
+''')
 PROOF('lemma_subseq', ['C12', 'C07'], '''
 pub proof fn lemma_subseq_extend_b(a: Seq<u8>, b: Seq<u8>, x: Seq<u8>)
     requires is_subseq(a, b)
@@ -254,6 +326,9 @@ FN('parse_input', props=['C07', 'C12', 'C01'], ret='r',
        ('C07.one_chunk_per_call', 'r is Ok ==> one_segment(src@, final(dst)@, r->Ok_0.0 as int, r->Ok_0.1 as int, *old(self), *final(self))'),
        ('C07.open_chunk_no_skip', '*old(self) is Chunk && r is Ok && r->Ok_0.1 == 0 ==> r->Ok_0.0 == 0 && *final(self) == *old(self)'),
        ('C07.crlf_round', '*old(self) is CrLf && r is Ok ==> r->Ok_0.1 == 0 && ((r->Ok_0.0 == 0 && *final(self) is CrLf) || (r->Ok_0.0 == 2 && *final(self) is Size))'),
+       ('C07.parse_input_is_the_interpreter', '''match spec_parse(*old(self), src@, old(dst).len() as int) {
+            None => r is Err,
+            Some(p) => r == Ok::<(usize, usize), Error>((p.i as usize, p.out.len() as usize)) && p.i >= 0 && *final(self) == p.state && final(dst)@.subrange(0, p.out.len() as int) == p.out }'''),
        ('C07.ended_consumes_nothing', '*old(self) is Ended ==> r == Ok::<(usize, usize), Error>((0usize, 0usize)) && *final(self) is Ended'),
    ],
    head='proof { axiom_slice_len(src); axiom_slice_len(dst); }',
@@ -264,11 +339,18 @@ FN('parse_input', props=['C07', 'C12', 'C01'], ret='r',
         let ghost mut p_out: usize = 0;
         let ghost mut p_state: Dechunker = *self;
         let ghost mut p_dst: Seq<u8> = dst@;
-        proof { assert(dst@.subrange(0, 0) =~= src@.subrange(0, 0)); }
+        proof {
+            assert(dst@.subrange(0, 0) =~= src@.subrange(0, 0));
+            assert(src@.subrange(0, src.len() as int) =~= src@);
+            match spec_parse(*self, src@, dst.len() as int) { Some(q) => { assert(dst@.subrange(0, 0) + q.out =~= q.out); } None => {} }
+        }
 ''',
               'invariant_except_break': [
                   ('aux.parse_input.trailer_transient', '!(*self is Trailer) || (spec_find_crlf(src@.subrange(pos.index_in as int, src.len() as int)) matches Some(i) && i > 0)'),
                   ('aux.parse_input.loop.crlf_first', '*old(self) is CrLf ==> pos.index_in == 0'),
+                  ('aux.parse_input.loop.interpreter', '''match spec_parse(*self, src@.subrange(pos.index_in as int, src.len() as int), dst.len() - pos.index_out) {
+                        None => spec_parse(*old(self), src@, old(dst).len() as int) is None,
+                        Some(q) => spec_parse(*old(self), src@, old(dst).len() as int) == Some(ParseOut { state: q.state, i: pos.index_in + q.i, out: dst@.subrange(0, pos.index_out as int) + q.out }) }'''),
                   ('aux.parse_input.loop.no_size_after_data', 'pos.index_out > 0 ==> *self is Chunk || *self is CrLf'),
               ],
               'invariant': [
@@ -281,10 +363,13 @@ FN('parse_input', props=['C07', 'C12', 'C01'], ret='r',
                   ('aux.parse_input.loop.nodata_yet', 'pos.index_out == 0 && *old(self) is Chunk ==> (*self == *old(self) && pos.index_in == 0)'),
                   ('aux.parse_input.loop.crlf_round', '*old(self) is CrLf ==> pos.index_out == 0 && ((pos.index_in == 0 && *self is CrLf) || (pos.index_in == 2 && *self is Size))'),
               ],
-              'ensures': [('aux.parse_input.loop.exit', '!(*self is Trailer)')],
+              'ensures': [('aux.parse_input.loop.exit', '!(*self is Trailer)'),
+                          ('aux.parse_input.loop.exit_interpreter', 'spec_parse(*old(self), src@, old(dst).len() as int) == Some(ParseOut { state: *self, i: pos.index_in as int, out: dst@.subrange(0, pos.index_out as int) })')],
               'decreases': 'src.len() - pos.index_in, rank(*self)',
               'body_head': '''
-            proof { p_in = pos.index_in; p_out = pos.index_out; p_state = *self; p_dst = dst@; }
+            proof { p_in = pos.index_in; p_out = pos.index_out; p_state = *self; p_dst = dst@;
+                    lemma_parse_unfold(*self, src@.subrange(pos.index_in as int, src.len() as int), dst.len() - pos.index_out);
+                    lemma_first_cr(src@.subrange(pos.index_in as int, src.len() as int)); }
 ''',
               'after': '''
         proof { assert(seg_a == seg_start(pos.index_in as int, pos.index_out as int, *self) || pos.index_out == 0); }
@@ -292,6 +377,22 @@ FN('parse_input', props=['C07', 'C12', 'C01'], ret='r',
               }},
    before=[('if !more {', '''
             proof {
+                // interpreter: unfold once at the state before this step
+                let win0 = src@.subrange(p_in as int, src.len() as int);
+                let room0 = dst.len() - p_out;
+                lemma_parse_unfold(p_state, win0, room0);
+                let c = pos.index_in - p_in;
+                let k = pos.index_out - p_out;
+                assert(win0.subrange(c, win0.len() as int) =~= src@.subrange(pos.index_in as int, src.len() as int));
+                assert(win0.subrange(0, k) =~= src@.subrange(p_in as int, p_in + k));
+                assert(dst@.subrange(0, pos.index_out as int) =~= p_dst.subrange(0, p_out as int) + dst@.subrange(p_out as int, pos.index_out as int));
+                match spec_parse(*self, src@.subrange(pos.index_in as int, src.len() as int), dst.len() - pos.index_out) {
+                    Some(q) => {
+                        let a = p_dst.subrange(0, p_out as int); let b = dst@.subrange(p_out as int, pos.index_out as int);
+                        assert((a + b) + q.out =~= a + (b + q.out));
+                    }
+                    None => {}
+                }
                 lemma_first_cr(src@.subrange(p_in as int, src.len() as int));
                 let n = (pos.index_out - p_out) as int;
                 if n > 0 {
